@@ -428,9 +428,6 @@ def run(ctx):
         "exit statuses are judged as zero / not zero; messages are not judged",
     ]
 
-    if os.environ.get("X_CLI_SAVE_INPUT"):
-        with open(os.environ["X_CLI_SAVE_INPUT"], "w") as f:
-            json.dump(inp, f)
     out = ctx.impl("harness/cli_alias_driver.py", ["--jobs", 4], inp, timeout=3000)
     ctx.notes.append("driver seconds per task: %s" % out["timing"])
     if "resolve" in legs:
